@@ -439,6 +439,8 @@ class Interp:
         return AV(out.cls, 'tensor', out.may_raise or c.may_raise, out.why or c.why)
 
     def torch_fn(self, name: str, e: ast.Call, env, kws) -> Any:
+        if name in ('finfo', 'iinfo'):
+            return Opaque('float_info')          # torch.finfo(dtype).max: the largest finite value, like sys.float_info.max
         args = [self.eval(a, env) for a in e.args]
         base = name
         res: Optional[AV] = None
